@@ -122,6 +122,12 @@ def _add_links(c):
     c.ensures("len(sector_links) == old(len(sector_links))", "table-length-kept")
     c.ensures("implies(pairwise_distinct(links_arg), forall(0, len(links_arg) - 1, lambda k: sector_links[links_arg[k]].next == links_arg[k+1] "
               "and not sector_links[links_arg[k]].end))", "links-installed")
+    # the same for a list that may revisit a sector as long as it is FUNCTIONAL (equal entries have equal successors) and its last entry
+    # occurs nowhere else: what a walk along a link table produces
+    c.define("functional", ["xs"], "forall(0, len(xs) - 1, lambda a: xs[a] != xs[len(xs) - 1] and "
+             "forall(0, len(xs) - 1, lambda b: implies(xs[a] == xs[b], xs[a + 1] == xs[b + 1])))")
+    c.ensures("implies(functional(links_arg), forall(0, len(links_arg) - 1, lambda k: sector_links[links_arg[k]].next == links_arg[k+1] "
+              "and not sector_links[links_arg[k]].end))", "links-installed-along-a-functional-walk")
     c.ensures("sector_links[links_arg[len(links_arg)-1]].end", "last-is-end")
     c.ensures("forall(0, len(sector_links), lambda s: implies(forall(0, len(links_arg), lambda k: links_arg[k] != s), "
               "sector_links[s].next == old(sector_links)[s].next and sector_links[s].end == old(sector_links)[s].end))",
@@ -134,6 +140,7 @@ def _add_links(c):
         "prev_link == links_arg[_i0 - 1]",
         "len(sector_links) == old(len(sector_links))",
         "implies(pairwise_distinct(links_arg), forall(0, _i0 - 1, lambda k: sector_links[links_arg[k]].next == links_arg[k+1] and not sector_links[links_arg[k]].end))",
+        "implies(functional(links_arg), forall(0, _i0 - 1, lambda k: sector_links[links_arg[k]].next == links_arg[k+1] and not sector_links[links_arg[k]].end))",
         "forall(0, _i0 - 1, lambda k: links_arg[k] < len(sector_links))",
         "forall(0, len(sector_links), lambda s: implies(forall(0, _i0 - 1, lambda k: links_arg[k] != s), "
         "sector_links[s].next == old(sector_links)[s].next and sector_links[s].end == old(sector_links)[s].end))",
@@ -162,3 +169,49 @@ CONCRETE["smpl_extract.util.fat:add_to_sector_links"] = {
     "build": _build_add_links, "small": _small_add_links,
     "bound": "all duplicate-free link lists over 0..n (n out of range) for tables of <= 3/4 entries",
 }
+
+
+# ---------------------------------------------------------------------------------------------------------------- closing the composition
+# get_path over a link table that carries, for every member of a closed set `wf`, exactly that member's table word W(j) (what the two
+# `_decode#exact` contracts establish): started at a member it returns the sequence obtained by FOLLOWING THE TABLE WORDS from the first
+# sector up to the sector whose word is the end marker - the induction along the chain is done by the loop itself (invariant: the
+# current sector is a member).
+def _mk_along(tag, is_end, note):
+    @contract(f"smpl_extract.util.fat:FileAllocationTable.get_path#along-the-table[{tag}]", source_key="smpl_extract.util.fat:FileAllocationTable.get_path",
+              props=["C07", "C01", "C02"], proof_only=True)
+    def _gp(c):
+        c.self_obj(("self", "smpl_extract.util.fat:FileAllocationTable", {"size": "int", "sector_links": LINKS, "parent_stream": ("const", None)}))
+        c.param("starting_sector", "int")
+        c.returns(("list", "int"))
+        c.value_class("SectorLink", {"next": "int", "end": "bool"})
+        c.define("W", ["j"], "uf_int('table_word', j)")
+        c.define("wf", ["j"], "uf_bool('chain_member', j)")
+        c.define("isend", ["w"], is_end)
+        c.requires("starting_sector >= 0 and wf(starting_sector) and self.size == len(self.sector_links)")
+        c.requires("forall(0, len(self.sector_links), lambda k: self.sector_links[k].next >= 0)", "links-unsigned")
+        c.requires("forall(lambda j: implies(wf(j), 0 <= j and j < len(self.sector_links) and W(j) >= 0 and implies(not isend(W(j)), wf(W(j)))))",
+                   "members-are-closed-under-following-the-table")
+        c.requires("forall(0, len(self.sector_links), lambda j: implies(wf(j), (isend(W(j)) and self.sector_links[j].end) or "
+                   "(not isend(W(j)) and self.sector_links[j].next == W(j) and not self.sector_links[j].end)))", "the-table-was-decoded-exactly")
+        c.raises("InvalidFatDefinition")       # a closed set without an end marker (a cycle) is reported, never followed for ever
+        c.ensures("len(result) >= 1 and result[0] == starting_sector", "starts-at-the-first-sector")
+        c.ensures("forall(0, len(result) - 1, lambda k: result[k + 1] == W(result[k]) and not isend(W(result[k])))", "each-next-sector-is-the-table-word-of-the-one-before")
+        c.ensures("isend(W(result[len(result) - 1]))", "stops-at-the-sector-whose-word-is-the-end-marker")
+        c.ensures("forall(0, len(result), lambda k: wf(result[k]))", "never-leaves-the-chain")
+        c.modifies()
+        lp = c.loop(0)
+        lp.invariant(
+            "loop_cnt == len(path) and 0 <= loop_cnt and current_sector >= 0 and wf(current_sector)",
+            "implies(len(path) == 0, current_sector == starting_sector)",
+            "implies(len(path) > 0, path[0] == starting_sector and current_sector == W(path[len(path) - 1]))",
+            "forall(0, len(path) - 1, lambda k: path[k + 1] == W(path[k]))",
+            "forall(0, len(path), lambda k: wf(path[k]) and not isend(W(path[k])))",
+        )
+        lp.measure("self.size - loop_cnt")
+        lp.modifies("path", ("list", "int"))
+        c.note = note
+    return _gp
+
+
+_mk_along("akai", "w == 0xC000", "AKAI: the end marker is the word 0xC000")
+_mk_along("roland", "w >= 0xfff8", "Roland: every word >= 0xfff8 ends a chain")
